@@ -20,6 +20,7 @@ class _State:
         self.visits = 0
         self.cond_evals = []  # (time, name, value)
         self.sites = []  # tag of every fault site visit, in order
+        self.flags = {}  # program state written by `setflag`, read by conditions "flag:<name>"
 
 
 STATE = _State()
@@ -61,7 +62,9 @@ def cond(name):
     """Scripted truth value of condition `name` at the current time step."""
     t = now()
     tab = STATE.tables.get(name)
-    if tab is None:
+    if name.startswith("flag:"):
+        v = bool(STATE.flags.get(name[5:], False))
+    elif tab is None:
         v = STATE.default
     elif callable(tab):
         v = tab(t)
@@ -70,6 +73,12 @@ def cond(name):
     STATE.cond_evals.append((t, name, v))
     _site("?" + name)
     return v
+
+
+def setflag(name, value):
+    """Program state: read back by conditions named "flag:<name>"."""
+    STATE.flags[name] = bool(value)
+    return True
 
 
 def val(name):
